@@ -6,6 +6,12 @@ KERNEL_TB = [
     'correspondence check (harness/, lean/Driver.lean): sampling, coverage reported in this file',
 ]
 
+MACHINE_TB = [
+    'the whole-machine model (lean/USimModel/Machine) is hand-written; it is tied to the code by running the same generated '
+    'programs on the real usim and on the compiled model and comparing complete traces (time, turn, activity, event)',
+    "modelled, not verified: CPython's coroutine protocol (send/throw/close, GeneratorExit rules), contextlib, reference-counting finalisation of abandoned async generators",
+]
+
 PROPS = {
     'C17': dict(
         gen=['Concurrent'], props=['C17'], model=['Concurrent'], harness='c17',
@@ -31,6 +37,16 @@ PROPS = {
         assumptions=['amounts, priorities, times and capacities on an integer grid (or infinite capacity); items are integers',
                      'the eager-granting theorem excludes histories whose last operation on a queue is a cancel (not listed by the statement)'],
         partial=[],
+    ),
+    'C09': dict(
+        gen=['Lock'], props=['C09'], model=['Prim/Lock', 'Machine/Run', 'Machine/Step', 'Machine/Kernel', 'Judge/Judges'], harness='c09',
+        trusted_base=KERNEL_TB + MACHINE_TB + [
+            'shape templates (exact AST match, else broken obligation): Lock.available, __release__, __aenter__, __aexit__, '
+            'Notification.__awake_next__/__subscribe__/__unsubscribe__',
+        ],
+        assumptions=['the open lock model abstracts the kernel: delivery of a scheduled wake-up is the action `resume`, any exception '
+                     'thrown at the wait is `abort`; that the kernel delivers exactly these is shown by the exact trace correspondence, not proved'],
+        partial=['projection lemma machine -> open lock model is not proved (tied by correspondence only)'],
     ),
 }
 
@@ -60,4 +76,15 @@ MANIFEST_TEXT = {
              'amounts; FIFO callback order of the kernel (C01/C02) is assumed by the sequential model and checked by the correspondence',
         technique='Lean 4 invariants over all operation histories + translated decision logic + op-by-op differential replay',
         design_ref='6 (C19), 4.A, 4.B'),
+    'C09': dict(
+        level='Lean 4 theorems over an open state-machine model of the lock, for every sequence of enter/resume/abort/exit actions by '
+              'any number of activities (hence every schedule and a fault at every suspension point): step_inv/run_inv (6-clause '
+              'invariant), mutex, reentrant_depth, always_released, designation_is_head + waiting_order_preserved (FIFO hand-off), '
+              'available_iff; transitions tied to locks.py by regenerated templates. The executable whole-machine model reproduces '
+              'the real usim to the turn on generated lock programs with injected cancels/until-deadlines/closes; the Lean judge '
+              '(overlap, grant order, available, freedom at quiescence) is evaluated on every implementation trace.',
+        note='trusted: Lean kernel + standard axioms; templates; the abstraction of kernel deliveries into resume/abort actions (checked by '
+             'exact trace correspondence, not proved); CPython coroutine semantics',
+        technique='Lean 4 invariant proof over all action sequences + exact whole-machine differential traces + Lean trace judge',
+        design_ref='6 (C09), 3, 4.B'),
 }
